@@ -1144,12 +1144,15 @@ def sum_of_continuous_uniforms_distribution(n, lo=0, hi=1):
 		def _cdf(self, x):
 			# P(X <= x) = P(Y <= (y - n * lo) / (hi - lo)), where Y is the sum of
 			# n U[0,1] r.v.s and therefore has an Irwin-Hall distribution.
-			if x < n * lo:
-				return 0
-			elif x > n * hi:
-				return 1
-			else:
-				return irwin_hall_cdf((x - n * lo) / (hi - lo), n)
+			# (scipy passes x as an array, so evaluate elementwise.)
+			def _scalar_cdf(x):
+				if x < n * lo:
+					return 0.0
+				elif x > n * hi:
+					return 1.0
+				else:
+					return float(irwin_hall_cdf((x - n * lo) / (hi - lo), n))
+			return np.vectorize(_scalar_cdf, otypes=[float])(x)
 
 	# Check whether n is an integer.
 	if not is_integer(n):
